@@ -39,8 +39,8 @@ TRUSTED_BASE = [
     "the NumPy/SciPy primitives are modelled (DESIGN.md 3.7) or passed in as data (3.8)",
     "the correspondence harness, its generators and comparison rules (DESIGN.md 4.3); Lean's compiler for the native model driver",
     "that the statements in lean/TWV/Properties/<id>.lean say what the property says",
-    "the translators T1-T13 (Python AST -> Lean for a fixed subset, anything else refused) and the vocabularies their output "
-    "is written in (DESIGN.md 7, 12.5-12.14); object identity, dtypes and containers are outside the translated semantics",
+    "the translators T1-T15 (Python AST -> Lean for a fixed subset, anything else refused) and the vocabularies their output "
+    "is written in (DESIGN.md 7, 12.5-12.16); object identity, dtypes and containers are outside the translated semantics",
 ]
 
 
